@@ -113,9 +113,8 @@ public:
 
 private:
     LexedTokens::IndexType litTkIdx_ = LexedTokens::invalidIndex();
-    AST_CHILD_LST1(litTkIdx_)
-
     StringLiteralExpressionSyntax* adjacent_ = nullptr;
+    AST_CHILD_LST2(litTkIdx_, adjacent_)
 };
 
 /**
